@@ -33,6 +33,7 @@ def lifecycles(draw, tier):
         c["nh"] = draw(st.one_of(st.none(), st.integers(1, 5)))
         c["na"] = draw(st.one_of(st.none(), st.integers(1, 4))) if t == "density" else None
         c["positional"] = draw(st.booleans())
+        c["size_form"] = draw(st.sampled_from(["int", "int", "np.int64", "np.int32"]))    # e.g. sizes computed with numpy
     else:
         nh = draw(st.integers(1, 4))
         na = draw(st.integers(1, 3)) if t == "density" else None
@@ -87,10 +88,13 @@ def check(c):
     labels = [f"type={t}", "how=" + c["how"]]
     if c["how"] == "sizes":
         nh, na = c["nh"], c["na"]
+        conv = {"int": int, "np.int64": np.int64, "np.int32": np.int32}[c.get("size_form", "int")]
+        cv = lambda x: None if x is None else conv(x)
         if t == "density":
-            state = cls(n, nh, na, gpu=False) if c["positional"] else cls(num_visible=n, num_hidden=nh, num_aux=na, gpu=False)
+            state = cls(cv(n), cv(nh), cv(na), gpu=False) if c["positional"] else cls(num_visible=cv(n), num_hidden=cv(nh), num_aux=cv(na), gpu=False)
         else:
-            state = cls(n, nh, gpu=False) if c["positional"] else cls(num_visible=n, num_hidden=nh, gpu=False)
+            state = cls(cv(n), cv(nh), gpu=False) if c["positional"] else cls(num_visible=cv(n), num_hidden=cv(nh), gpu=False)
+        labels.append("size_form=" + c.get("size_form", "int"))
         enh, ena = (nh or n), ((na or n) if t == "density" else None)
         for net in state.networks:
             rbm = getattr(state, net)
